@@ -54,15 +54,20 @@ Record pml_variant := {
      is active, not pre-empted and of the right spontaneity.  The switch stands for "the document spells such
      conditions without outer parentheses and the template adds none" *)
   pv_cond_bare : bool;
+  (* the ancestors of a compound state's completion are added only when the completion is no direct child
+     (generated C; the repaired Promela template).  FastMicroStep adds them always, which also supplies the
+     ancestors of a state that a history record put into the entry set without them (a <history> of a state that
+     stays active can look recorded, because a nested history wrote into the shared history array) *)
+  pv_completion_guarded : bool;
   (* event descriptor resolution, see Trie.v *)
   pv_trie : trie_variant
 }.
 Definition pml_as_written : pml_variant :=
   {| pv_in_reads_root := true; pv_initial_break := true; pv_deep_unnegated := true;
-     pv_hist_parent_test := true; pv_hist_or := true; pv_hist_covered := true; pv_hist_inner_first := false; pv_found_stale := true; pv_cond_bare := true; pv_trie := tv_as_written |}.
+     pv_hist_parent_test := true; pv_hist_or := true; pv_hist_covered := true; pv_hist_inner_first := false; pv_found_stale := true; pv_cond_bare := true; pv_completion_guarded := true; pv_trie := tv_as_written |}.
 Definition pml_repaired : pml_variant :=
   {| pv_in_reads_root := false; pv_initial_break := false; pv_deep_unnegated := false;
-     pv_hist_parent_test := false; pv_hist_or := false; pv_hist_covered := false; pv_hist_inner_first := false; pv_found_stale := false; pv_cond_bare := false; pv_trie := tv_repaired |}.
+     pv_hist_parent_test := false; pv_hist_or := false; pv_hist_covered := false; pv_hist_inner_first := false; pv_found_stale := false; pv_cond_bare := false; pv_completion_guarded := false; pv_trie := tv_repaired |}.
 
 (* ------------------------------------------------------------------ trace lines of the emitted model *)
 Inductive ptok :=
@@ -437,7 +442,7 @@ Definition p_descend_one (cfg exitset hist : list nat) (acc : list nat * list na
         else (es1, ts, s)
       else
         (* patched (as FastMicroStep after a86cfda4): test negated, every state of the completion above i *)
-        if negb among_children then
+        if negb (pv_completion_guarded pv) || negb among_children then
           (fold_left (fun e j => if mem j (fs_completion si) then set_union e (fs_ancestors (st c j)) else e)
                      (seq (S i) (pn - S i)) es1, ts, s)
         else (es1, ts, s)
